@@ -464,8 +464,16 @@ func (b *Bitmap) CountRange(start, end uint64) (n uint64) {
 	citer, found := b.Containers.Iterator(highbits(start))
 	// If range is entirely in one container then just count that range.
 	if found && skey == ekey {
-		citer.Next()
-		_, c := citer.Value()
+		// The slot for skey may hold a nil container (left by removing its
+		// last bit), which the iterator skips: make sure the container we
+		// got really is the one at skey and not a later one.
+		if !citer.Next() {
+			return 0
+		}
+		k, c := citer.Value()
+		if k != skey {
+			return 0
+		}
 		return uint64(c.countRange(int32(lowbits(start)), int32(lowbits(end))))
 	}
 
